@@ -109,6 +109,16 @@ func (*cache).Set
   ensures stored: (len(key) + len(val) <= c.conf.MaxElementSize &&
     (c.conf.EnableLRU || !(old(c.size) + len(key) + len(val) > c.conf.MaxSize || old(len(c.items)) == c.conf.MaxCount))) ==>
     haskey(c.items, strid(key)) && mapget(c.items, strid(key)).value == val && mapget(c.items, strid(key)).key == key
+  // From the property statement (known finding, see /verif/known_findings.json:
+  // both fail when an existing key is replaced in a cache that is full before
+  // the replacement is accounted for - the oldest entry is evicted although no
+  // room is needed, and when that entry is the key itself Set reports false):
+  ensures seq_lru_reports_replacement: c.conf.EnableLRU && len(key) + len(val) <= c.conf.MaxElementSize ==>
+    (result0 <==> old(haskey(c.items, strid(key))))
+  ensures seq_no_eviction_when_replacing: c.conf.EnableLRU && len(key) + len(val) <= c.conf.MaxElementSize &&
+    old(haskey(c.items, strid(key))) &&
+    (let it = old(mapget(c.items, strid(key))) in old(c.size) - (len(it.key) + len(it.value)) + len(key) + len(val) <= c.conf.MaxSize) ==>
+    cbcalls() == 0
   ensures size_accounting_new_key: len(key) + len(val) <= c.conf.MaxElementSize &&
     !(old(c.size) + len(key) + len(val) > c.conf.MaxSize || old(len(c.items)) == c.conf.MaxCount) &&
     !old(haskey(c.items, strid(key))) ==>
@@ -131,5 +141,6 @@ func (*cache).Set
     invariant seq_untouched_unless_evicting: !(old(c.size) + addSize > c.conf.MaxSize || old(len(c.items)) == c.conf.MaxCount) ==>
       c.items == old(c.items) && c.size == old(c.size) && len(c.items) == old(len(c.items)) &&
       (forall k: (haskey(c.items, k) <==> old(haskey(c.items, k))) && mapget(c.items, k) == old(mapget(c.items, k)))
+    invariant seq_no_callback_unless_evicting: !(old(c.size) + addSize > c.conf.MaxSize || old(len(c.items)) == c.conf.MaxCount) ==> cbcalls() == 0
     assume_invariant list_inv: monitor_assumed(c, "lock")
 @*/
